@@ -584,6 +584,14 @@ def main():
     if len(sys.argv) < 2:
         print(__doc__)
         sys.exit(64)
+    if sys.argv[1] == "--unit":
+        # one unit, every obligation whatever property owns it (used by strength.py); no evidence, no replay files
+        r = run_unit(sys.argv[2], "quick", 0)
+        for v in r["violations"]:
+            print(f"FAILED {v['id']}")
+        for u in r["undecided"]:
+            print("UNDECIDED " + json.dumps(u)[:300])
+        sys.exit(1 if r["violations"] else (2 if r["undecided"] else 0))
     pid = sys.argv[1]
     tier = sys.argv[2] if len(sys.argv) > 2 else os.environ.get("VERIF_TIER", "quick")
     seed = int(os.environ.get("VERIF_SEED", "0") or 0)
